@@ -81,8 +81,9 @@ func (b *payPerInterval) OnUpdate(node store.Node, peers []store.Node) (store.Ba
 	}
 
 	credit := b.intervalCredit(node.LastSeen)
-	if credit.Cmp(new(big.Int)) == 0 {
-		// No time passed?
+	if credit.Sign() <= 0 {
+		// No time passed? Or the clock was set back behind the last check-in:
+		// a negative charge would have the hosts pay their client.
 		return b.Store.GetNodeBalance(node.ID)
 	}
 
